@@ -150,43 +150,96 @@ def _cvc5_solve(text, timeout_s, want_model):
     return (res or "unknown", None, time.time() - t0, "cvc5")
 
 
-def _child(fn, text, timeout_s, want_model, conn):
-    try:
-        conn.send(fn(text, timeout_s, want_model))
-    except BaseException as e:       # noqa
+class _Server(object):
+    """one long-lived solver process per (worker, solver kind); a fresh Solver object is created for every query.
+    A query that overruns its hard deadline gets the process killed and restarted."""
+
+    def __init__(self, kind):
+        self.kind = kind
+        self.proc = None
+        self.conn = None
+
+    def _start(self):
+        ctx = mp.get_context("fork")
+        parent, child = ctx.Pipe(duplex=True)
+        fn = _z3_solve if self.kind == "z3" else _cvc5_solve
+
+        def loop(conn):
+            try:
+                signal.signal(signal.SIGINT, signal.SIG_IGN)
+                n = 0
+                while True:
+                    try:
+                        job = conn.recv()
+                    except EOFError:
+                        break
+                    if job is None:
+                        break
+                    text, timeout_s, want_model = job
+                    try:
+                        res = fn(text, timeout_s, want_model)
+                    except BaseException as e:    # noqa
+                        res = ("error", repr(e)[:300], 0.0, "?")
+                    conn.send(res)
+                    n += 1
+            finally:
+                os._exit(0)
+        p = ctx.Process(target=loop, args=(child,))
+        p.daemon = False
+        p.start()
+        child.close()
+        self.proc, self.conn = p, parent
+
+    def stop(self):
+        if self.proc is not None:
+            try:
+                if self.proc.is_alive():
+                    os.kill(self.proc.pid, signal.SIGKILL)
+            except OSError:
+                pass
+            try:
+                self.proc.join(1)
+            except Exception:
+                pass
+            try:
+                self.conn.close()
+            except Exception:
+                pass
+        self.proc = self.conn = None
+
+    def solve(self, text, timeout_s, want_model):
+        if self.proc is None or not self.proc.is_alive() or self.pid != os.getpid():
+            self.proc = None
+            self._start()
+            self.pid = os.getpid()
+        t0 = time.time()
         try:
-            conn.send(("error", repr(e)[:300], 0.0, "?"))
-        except Exception:
+            self.conn.send((text, timeout_s, want_model))
+            if self.conn.poll(timeout_s + 10):
+                return self.conn.recv()
+        except (EOFError, OSError, BrokenPipeError):
             pass
-    finally:
-        conn.close()
-        os._exit(0)
+        self.stop()
+        return ("unknown", "hard timeout or solver crash", time.time() - t0, self.kind)
+
+    pid = None
+
+
+_SERVERS = {}
 
 
 def solve(text, timeout_s=60.0, want_model=True, solver="z3"):
     """returns (verdict, model|None|msg, seconds, how).  verdict in sat/unsat/unknown/error.
-    The solver runs in a forked child so that a hang or a memory blow-up cannot take the check down."""
-    fn = _z3_solve if solver == "z3" else _cvc5_solve
-    ctx = mp.get_context("fork")
-    parent, child = ctx.Pipe(duplex=False)
-    t0 = time.time()
-    p = ctx.Process(target=_child, args=(fn, text, timeout_s, want_model, child))
-    p.daemon = False
-    p.start()
-    child.close()
-    res = None
-    if parent.poll(timeout_s + 10):
-        try:
-            res = parent.recv()
-        except EOFError:
-            res = None
-    if p.is_alive():
-        try:
-            os.kill(p.pid, signal.SIGKILL)
-        except OSError:
-            pass
-    p.join()
-    parent.close()
-    if res is None:
-        return ("unknown", "hard timeout or solver crash", time.time() - t0, solver)
-    return res
+    Every query gets a fresh solver object inside a separate solver process (hard deadline enforced by kill)."""
+    key = (solver, os.getpid())
+    srv = _SERVERS.get(key)
+    if srv is None:
+        srv = _SERVERS[key] = _Server(solver)
+    return srv.solve(text, timeout_s, want_model)
+
+
+def shutdown():
+    for k, srv in list(_SERVERS.items()):
+        if k[1] == os.getpid():
+            srv.stop()
+            del _SERVERS[k]
